@@ -190,6 +190,25 @@ theorem advanceDyn_reachable {fuel : Nat} {d : DState} {r : Nat} {x : DState × 
                       · exact ih (d := withIter d s4 r d.s.cfgs.length (keysOf d q.cfg)) hr4 hs
                 · simp at hs; subst hs; exact hr2
 
+theorem advanceFb_reachable {d : DState} {r : Nat} {x : DState × String} (h : Reachable d.s)
+    (hs : advanceFb d r = some x) : Reachable x.1.s := by
+  simp only [advanceFb] at hs
+  split at hs
+  · simp at hs
+  next s1 h1 =>
+    cases ha : advance fuel0 { d with s := s1 } r with
+    | none => simp [ha] at hs
+    | some y =>
+      simp [ha] at hs; subst hs
+      exact advance_reachable (d := { d with s := s1 }) (Reachable.step _ h h1) ha
+
+theorem advanceAny_reachable {d : DState} {r : Nat} {x : DState × String} (h : Reachable d.s)
+    (hs : advanceAny d r = some x) : Reachable x.1.s := by
+  simp only [advanceAny] at hs
+  split at hs
+  · exact advanceFb_reachable h hs
+  · exact advanceDyn_reachable h hs
+
 theorem continueOrRetDyn_reachable {d d' : DState} {s1 : State} {r : Nat} {res ev : String} (h1 : Reachable s1)
     (hs : continueOrRetDyn d s1 r res = some (d', ev)) : Reachable d'.s := by
   simp only [continueOrRetDyn] at hs
@@ -199,12 +218,17 @@ theorem continueOrRetDyn_reachable {d d' : DState} {s1 : State} {r : Nat} {res e
     have hr2 := endIteration_reachable h1 h2
     split at hs
     · simp at hs; obtain ⟨hd, _⟩ := hs; subst hd; exact hr2
-    · exact advanceDyn_reachable (d := { d with s := s2 }) hr2 hs
+    · exact advanceAny_reachable (d := { d with s := s2 }) hr2 hs
 
 theorem sstep_reachable {d d' : DState} {st : SStep} {ev : String} (h : Reachable d.s)
     (hs : sstep d st = some (d', ev)) : Reachable d'.s := by
   cases st with
-  | load ks p =>
+  | srcFail b =>
+    simp only [sstep] at hs
+    split at hs
+    · simp at hs
+    · simp at hs; obtain ⟨hd, _⟩ := hs; subst hd; exact h
+  | load ks p fb =>
     simp only [sstep] at hs
     split at hs
     · simp at hs
@@ -249,7 +273,7 @@ theorem sstep_reachable {d d' : DState} {st : SStep} {ev : String} (h : Reachabl
       next s1 h1 =>
         have hr1 := Reachable.step _ h h1
         split at hs
-        · exact advanceDyn_reachable (d := { d with s := s1 }) hr1 hs
+        · exact advanceAny_reachable (d := { d with s := s1 }) hr1 hs
         · cases ha : advance fuel0 { d with s := s1 } d.s.reqs.length with
           | none => simp [ha] at hs
           | some x =>
@@ -428,6 +452,18 @@ theorem leaves_only_by_finish {s s' : State} {a : Action} {r : Nat} {q q' : Req}
     next => simp at hs
   | newIter r2 =>
     simp only [step, stepNewIter] at hs
+    split at hs
+    next q2 hq2 =>
+      split at hs
+      next hpc =>
+        simp at hs; obtain ⟨_, hs⟩ := hs; subst hs
+        rcases set_case hq hq' with ⟨_, rfl⟩ | ⟨rfl, rfl⟩
+        · simp [hin] at hout
+        · rw [hq] at hq2; simp at hq2; subst hq2; simp [hpc, Pc.inFlightOn] at hin
+      all_goals simp at hs
+    next => simp at hs
+  | fallback r2 =>
+    simp only [step, stepFallback] at hs
     split at hs
     next q2 hq2 =>
       split at hs
